@@ -313,6 +313,7 @@ class GC(FileStorageFormatter):
                             extra_roots.append(dh.back)
                     else:
                         self.reachable[dh.oid] = dh.back
+                        extra_roots.append(dh.back)
 
                 pos += dh.recordlen()
 
